@@ -896,7 +896,7 @@ def plan(prop, tier, seed, known):
         for i in range(n):
             jobs.append(crash_job("crash%d" % i, seed * 100 + i, "crash", 1 if q else 2, 30 if q else 45, av, disk=3200,
                                   extra=["-loss", "2" if q else "6", "-cont", "3", "-nested", "1" if q else "3"]))
-        for i in range(4):
+        for i in range(5):
             jobs.append(crash_job("crashscript%d" % i, i, "script", 1, 0, av, disk=3200,
                                   extra=["-loss", "2" if q else "6", "-cont", "2", "-nested", "1" if q else "4"]))
         for i in range(2 if q else 12):
@@ -914,6 +914,7 @@ def plan(prop, tier, seed, known):
             jobs.append(crash_job("unstable%d" % i, seed * 100 + i, "crashun", 1 if q else 2, 35 if q else 50, av, disk=3200,
                                   extra=["-loss", "2" if q else "5", "-cont", "3", "-nested", "1"]))
         jobs.append(crash_job("crashscript2", 2, "script", 1, 0, av, disk=3200, extra=["-loss", "2" if q else "6", "-cont", "2", "-nested", "1"]))
+        jobs.append(crash_job("crashscript4", 4, "script", 1, 0, av, disk=3200, extra=["-loss", "2" if q else "6", "-cont", "2", "-nested", "1"]))
         jobs += commitwin_jobs(q, ["C07", "C01"])
         jobs.append(seq_job("unstseq", seed, "data,mix", 4 if q else 16, 250, av))
         jobs.append(probe_job(prop, av))
